@@ -366,4 +366,14 @@ theorem lostUpdateOn_complete (arr : String) (s : List Nat) (hs : s = [0, 0, 1, 
   rcases hs with rfl | rfl <;> rcases this with rfl | rfl <;>
     simp [run, step, lostUpdateOn, execEv, upd, Cfg.init]
 
+/-! ### folds -/
+
+theorem foldl_add_eq (init : Int) (xs : List Int) : xs.foldl (· + ·) init = init + xs.foldl (· + ·) 0 := by
+  induction xs generalizing init with
+  | nil => simp
+  | cons x xs ih =>
+    simp only [List.foldl_cons]
+    rw [ih (init + x), ih (0 + x)]
+    omega
+
 end SkNet.ParFor
